@@ -21,6 +21,9 @@ typedef struct mi_sim_site_s mi_sim_site_t;
 enum { MI_SIM_LOAD = 1, MI_SIM_STORE, MI_SIM_XCHG, MI_SIM_FADD, MI_SIM_FSUB, MI_SIM_FAND, MI_SIM_FOR,
        MI_SIM_CAS_STRONG, MI_SIM_CAS_WEAK, MI_SIM_YIELD, MI_SIM_LOCK, MI_SIM_TRYLOCK, MI_SIM_UNLOCK, MI_SIM_HARNESS };
 void   mi_sim_point(mi_sim_site_t* site, const char* func, const volatile void* addr);
+bool   mi_sim_store_buffer(mi_sim_site_t* site, volatile void* addr, size_t size, uint64_t val);
+bool   mi_sim_load_forward(const volatile void* addr, uint64_t* val);
+extern int mi_sim_sb_active;
 bool   mi_sim_cas_spurious(mi_sim_site_t* site);
 void   mi_sim_cas_result(mi_sim_site_t* site, bool success);
 size_t mi_sim_tid(void);
@@ -90,6 +93,8 @@ struct VThread {
   const mi_sim_site_t* spurious_site;
   void*     tls_value;
   int       logical;
+  struct SbEntry { volatile void* addr; uint64_t val; int size; int ttl; const mi_sim_site_t* site; } sb[4];   // store buffer (FIFO), see mi_sim_store_buffer
+  int       sb_n;
   vthread_main_t fn; void* arg;
 };
 
@@ -99,12 +104,14 @@ static int       g_cur = -1;          // baton holder
 static bool      g_active = false;
 static __thread VThread* tl_cur = nullptr;
 static Rng       g_srng;              // scheduling decisions
+static uint64_t  g_sb_buffered = 0, g_sb_overtaken = 0;
 // Scheduling decisions: one sequential stream (stable_sched = 0) or, by default for generated plans, a value derived from
 // (seed, logical thread, operation index, n-th decision inside that operation). The second form keeps the decisions inside
 // an operation unchanged when unrelated operations are deleted from the plan, which is what lets the minimiser shrink
 // multi-threaded plans; both are pure functions of the plan.
 struct VThread;
 static uint64_t sched_draw(VThread* t);
+void sched_sb_flush();
 static inline bool sched_chance(VThread* t, double p) { return (double)(sched_draw(t) >> 11) * (1.0 / 9007199254740992.0) < p; }
 static uint64_t  g_clock_ns = 0;
 static std::vector<uint64_t> g_pct_change;   // step numbers (sorted)
@@ -223,7 +230,7 @@ static void hex64(char* b, size_t n, uint64_t v) { snprintf(b, n, "%016llx", (un
   hex64(hb, sizeof hb, g_event_hash.h); o.kvs("event_hash", hb);
   hex64(hb, sizeof hb, g_api_hash.h);   o.kvs("api_hash", hb);
   hex64(hb, sizeof hb, g_sched_sig.h);  o.kvs("sched_sig", hb);
-  o.kv("steps", g_stats.steps); o.kv("switches", g_stats.switches); o.kv("yields", g_stats.yields);
+  o.kv("steps", g_stats.steps); if (g_cfg.sb_p > 0) { o.kv("sb_buffered", g_sb_buffered); o.kv("sb_overtaken", g_sb_overtaken); } o.kv("switches", g_stats.switches); o.kv("yields", g_stats.yields);
   o.kv("harness_points", g_stats.harness_points); o.kv("spurious", g_stats.spurious); o.kv("lock_blocks", g_stats.lock_blocks);
   o.kv("threads", (uint64_t)g_nvt);
   o.kv("sim_ms", (g_clock_ns - g_cfg.clock_start_ns) / 1000000ull);
@@ -381,8 +388,48 @@ static void maybe_switch(VThread* t, const mi_sim_site_t* site, bool harness) {
   }
 }
 
+// ---------------------------------------------------------------------------------
+// store buffer (SimConfig.sb_p): store -> load reordering of one thread's atomic accesses
+// ---------------------------------------------------------------------------------
+extern "C" { int mi_sim_sb_active = 0; }
+static void sb_write(const VThread::SbEntry& e) {
+  switch (e.size) {
+    case 1: __atomic_store_n((volatile uint8_t*)e.addr, (uint8_t)e.val, __ATOMIC_RELEASE); break;
+    case 2: __atomic_store_n((volatile uint16_t*)e.addr, (uint16_t)e.val, __ATOMIC_RELEASE); break;
+    case 4: __atomic_store_n((volatile uint32_t*)e.addr, (uint32_t)e.val, __ATOMIC_RELEASE); break;
+    default: __atomic_store_n((volatile uint64_t*)e.addr, (uint64_t)e.val, __ATOMIC_RELEASE); break;
+  }
+}
+static void sb_flush(VThread* t, int upto = 1 << 30) {   // drain the oldest `upto` entries in order
+  if (t == nullptr || t->sb_n == 0) return;
+  int n = upto < t->sb_n ? upto : t->sb_n;
+  for (int i = 0; i < n; i++) { sb_write(t->sb[i]); g_event_hash.add(0x5B0F1ull ^ (uint64_t)(uintptr_t)t->sb[i].addr); }
+  for (int i = n; i < t->sb_n; i++) t->sb[i - n] = t->sb[i];
+  t->sb_n -= n;
+}
+void sched_sb_flush() { sb_flush(tl_cur); }
+extern "C" bool mi_sim_store_buffer(mi_sim_site_t* site, volatile void* addr, size_t size, uint64_t val) {
+  VThread* t = tl_cur;
+  if (!g_active || t == nullptr || t->passthrough || g_cfg.sb_p <= 0 || g_finishing) return false;
+  if (!sched_chance(t, g_cfg.sb_p)) return false;
+  if (t->sb_n >= 4) sb_flush(t);
+  VThread::SbEntry& e = t->sb[t->sb_n++];
+  e.addr = addr; e.val = val; e.size = (int)size; e.ttl = 1 + (int)(sched_draw(t) % 3); e.site = site;
+  g_sb_buffered++;
+  return true;
+}
+extern "C" bool mi_sim_load_forward(const volatile void* addr, uint64_t* val) {
+  VThread* t = tl_cur;
+  if (t == nullptr || t->sb_n == 0) return false;
+  for (int i = t->sb_n - 1; i >= 0; i--) if (t->sb[i].addr == addr) { *val = t->sb[i].val; return true; }   // the thread sees its own latest store
+  g_sb_overtaken++;        // a load of another location was performed while an older store of this thread is still pending
+  if (g_cfg.trace) { const mi_sim_site_t* ls = t->last_site; sim_note("sb: vt%d load at %s:%d (%s) overtakes its pending store to %p (stored at %s:%d)", t->idx, ls ? base_name(ls->file) : "?", ls ? ls->line : 0, ls && ls->func ? ls->func : "?", (void*)t->sb[0].addr, t->sb[0].site ? base_name(t->sb[0].site->file) : "?", t->sb[0].site ? t->sb[0].site->line : 0); }
+  return false;
+}
+
 extern "C" void mi_sim_point(mi_sim_site_t* site, const char* func, const volatile void* addr) {
   VThread* t = tl_cur;
+  if (t != nullptr && t->sb_n != 0 && (!g_active || t->passthrough || (site->flags & SF_NOPREEMPT))) sb_flush(t);
   if (!g_active || t == nullptr || t->passthrough) return;
   if (site->id == 0) site_register(site, func);
   if (site->flags & SF_NOPREEMPT) { g_stats.stat_points++; return; }
@@ -394,12 +441,18 @@ extern "C" void mi_sim_point(mi_sim_site_t* site, const char* func, const volati
   clear_yields(t);
   budget_check(t);
   maybe_switch(t, site, false);
+  // the thread goes on: anything but a load drains its store buffer first; a load lets the buffered stores age
+  if (t->sb_n != 0) {
+    if (site->kind != MI_SIM_LOAD) sb_flush(t);
+    else { int expired = 0; for (int i = 0; i < t->sb_n; i++) if (--t->sb[i].ttl < 0) expired = i + 1; if (expired) sb_flush(t, expired); }
+  }
 }
 
 static mi_sim_site_t g_harness_site = {"harness", "harness", 0, MI_SIM_HARNESS, 0, 0};
 
 void sched_harness_point(int what) {
   VThread* t = tl_cur;
+  sb_flush(t);
   if (!g_active || t == nullptr) return;
   if (g_harness_site.id == 0) site_register(&g_harness_site, "harness");
   t->last_site = &g_harness_site;
@@ -412,6 +465,7 @@ void sched_harness_point(int what) {
 static mi_sim_site_t g_os_site = {"simos", "os_call", 0, MI_SIM_HARNESS, 0, 0};
 void sched_os_point(int kind) {
   VThread* t = tl_cur;
+  sb_flush(t);       // a system call is a full barrier
   if (!g_active || t == nullptr || t->passthrough) return;
   if (g_os_site.id == 0) site_register(&g_os_site, "os_call");
   t->last_site = &g_os_site;
@@ -429,7 +483,7 @@ static uint64_t sched_draw(VThread* t) {
   uint64_t k = mix64(g_cfg.sched_seed ? g_cfg.sched_seed : mix64(g_cfg.seed, 0x5C4ED), ((uint64_t)(uint32_t)t->logical << 32) ^ (uint64_t)(uint32_t)t->cur_op);
   return mix64(k, t->op_draws++);
 }
-void sched_set_passthrough(bool on) { if (tl_cur) { if (on) tl_cur->passthrough++; else if (tl_cur->passthrough > 0) tl_cur->passthrough--; } }
+void sched_set_passthrough(bool on) { if (tl_cur) { sb_flush(tl_cur); if (on) tl_cur->passthrough++; else if (tl_cur->passthrough > 0) tl_cur->passthrough--; } }
 int  sched_self() { return tl_cur ? tl_cur->idx : -1; }
 void sched_set_logical(int id) { if (tl_cur) tl_cur->logical = id; }
 int  sched_logical() { return tl_cur ? tl_cur->logical : 0; }
@@ -571,6 +625,7 @@ static void* vthread_start(void* p) {
   while (sem_wait(&t->sem) != 0) {}
   t->fn(t->idx, t->arg);
   // program over: thread is done
+  sb_flush(t);
   t->state = VS_DONE;
   for (int i = 0; i < g_nvt; i++) {
     VThread& o = g_vt[i];
@@ -619,7 +674,7 @@ int sched_spawn(vthread_main_t fn, void* arg, bool reuse_id) {
   return t->idx;
 }
 
-void sched_join(int i) {
+void sched_join(int i) { sched_sb_flush();
   VThread* t = tl_cur;
   while (g_vt[i].state != VS_DONE) {
     t->state = VS_BLOCKED; t->block_kind = BK_JOIN; t->block_on = (void*)&g_vt[i];
@@ -628,7 +683,7 @@ void sched_join(int i) {
 }
 
 // harness-level condition wait: block until another vthread calls sched_notify(key); false = gave up (nothing else could run)
-bool sched_wait(uint64_t key) {
+bool sched_wait(uint64_t key) { sched_sb_flush();
   VThread* t = tl_cur;
   t->wait_timed_out = false;
   t->state = VS_BLOCKED; t->block_kind = BK_WAIT; t->block_on = (void*)(uintptr_t)(key + 1);
@@ -639,7 +694,7 @@ void sched_notify(uint64_t key) {
   for (int i = 0; i < g_nvt; i++) { VThread& o = g_vt[i]; if (o.state == VS_BLOCKED && o.block_kind == BK_WAIT && o.block_on == (void*)(uintptr_t)(key + 1)) { o.state = VS_RUNNABLE; o.block_kind = BK_NONE; o.block_on = nullptr; } }
 }
 
-void sched_barrier(int id, int parties) {
+void sched_barrier(int id, int parties) { sched_sb_flush();
   VThread* t = tl_cur;
   Barrier* b = nullptr;
   for (auto& x : g_barriers) if (x.id == id) b = &x;
@@ -691,6 +746,7 @@ const char* g_sim_build_name = "";
 void sim_set_last_message(const char* m) { snprintf(g_last_msg, sizeof g_last_msg, "%s", m); }
 
 void sched_init() {
+  mi_sim_sb_active = (g_cfg.sb_p > 0) ? 1 : 0;
   g_srng.seed(g_cfg.sched_seed ? g_cfg.sched_seed : mix64(g_cfg.seed, 0x5C4ED));
   g_clock_ns = g_cfg.clock_start_ns;
   if (g_cfg.strategy == ST_PCT) {
